@@ -11,17 +11,16 @@ from harness.common import *
 import vlib
 
 LEVEL_TEXT = ('partial. Lean 4 theorems about the deterministic wrappers around an uninterpreted sampler: Poisson shot noise is a '
-              'non-negative integer; both shot-noise methods reject negative counts and the Poisson method unrepresentably large ones; '
+              'non-negative integer; both shot-noise methods reject exactly the frames with a negative or an unrepresentably large count; '
               'read noise is additive and signal-independent; a dark frame without pattern noise is floor(rate); a power-spectrum '
               'surface is zero outside its mask with mean square exactly rms^2 over its non-zero pixels for every mask shape; '
               'cosmic-ray frames are non-negative; seeded functions depend on nothing but arguments and seed (regenerated effect '
               'table). Distribution moments and "different seeds differ" are sampled assumption checks, not proved.')
-LEVEL_NOTE = ('partial by nature: means/variances and seed sensitivity are properties of NumPy\'s generators (unproven clauses, sampled). '
-              'Gap: the Gaussian shot-noise method does not reject unrepresentably large counts (reported).')
+LEVEL_NOTE = ('partial by nature: means/variances and seed sensitivity are properties of NumPy\'s generators (unproven clauses, sampled).')
 TECHNIQUE = 'Lean 4 proof (ordered-field algebra, Int.floor, decide on a regenerated effect table) + differential correspondence on identical draws'
 GEN = ['Effects']
 OPS = ['C18']
-RULE = ('cases: shot noise (poisson/gaussian; frames 1..12 x 1..12, non-square, float and integer counts 0..1e6, frames with a negative or '
+RULE = ('cases: rule07_dark_current (fpn 0 / > 0, explicit seed, repeated), read noise on float/int/uint frames, power_spectrum with float/int/bool masks; shot noise (poisson/gaussian; frames 1..12 x 1..12, non-square, float and integer counts 0..1e6, frames with a negative or '
         'a > 9.22e18 entry), read noise, dark current (fpn 0 and > 0, scalar and array shapes), power_spectrum on elliptical/annular '
         'masks of every aspect ratio (3..16 x 3..16), cosmic rays under random global states, and moment checks on 200x200 frames; '
         'distinct = (kind, shape, method, seed, parameters); non-trivial = non-square or rejected or fpn > 0 or masked')
@@ -32,12 +31,11 @@ TRUSTED = ['np.random.Generator.poisson/normal/lognormal/standard_normal are pur
 UNPROVEN = ['shot noise has mean and variance equal to the signal; read noise has zero mean and the requested standard deviation: '
             'distributional facts about NumPy generators, sampled with 6-sigma margins (assumption checks)',
             'different seeds give different draws: sampled',
-            'cosmic_rays: only the non-negativity/shape envelope is modelled; the ray tracing is not',
-            'Gaussian shot noise does not reject unrepresentably large counts (gap of shot_noise_rejects_negative_and_huge_partial)']
+            'cosmic_rays: only the non-negativity/shape envelope is modelled; the ray tracing is not']
 ASSUMPTIONS = ['Gaussian shot noise is exercised in its documented regime (counts > 1000, or exactly 0): below it the normal draw can be negative '
                '(shot_gaussian_support states the exact condition z >= -sqrt(count))',
                'power_spectrum_rms_exact is over the non-zero pixels of the masked noise (= the mask when no noise sample is exactly 0)',
-               'Gaussian shot-noise inputs are kept <= 1e15 (no upper guard in the code: reported)']
+               ]
 
 LAM_MAX = 9.223372006484771e+18
 
@@ -62,14 +60,20 @@ def generate(rng, tier):
             flavor = 'ok'
             r = int(rng.integers(0, 8))
             if r == 0: vals.flat[int(rng.integers(0, vals.size))] = -float(rng.uniform(0.5, 5)); flavor = 'negative'
-            elif r == 1 and method == 'poisson': vals.flat[int(rng.integers(0, vals.size))] = float(rng.uniform(1.01, 3)) * LAM_MAX; flavor = 'huge'
+            elif r == 1: vals.flat[int(rng.integers(0, vals.size))] = float(rng.uniform(1.01, 3)) * LAM_MAX; flavor = 'huge'
             elif r == 2: vals.flat[int(rng.integers(0, vals.size))] = 0.0
             out.append({'kind': 'shot', 'method': method, 'shape': list(sh), 'img': vlib.fl(vals.ravel()), 'seed': seed, 'flavor': flavor,
                         'int_dtype': bool(flavor == 'ok' and rng.integers(0, 4) == 0)})
         elif t == 3:
             sh = _shape(rng)
             out.append({'kind': 'read', 'shape': list(sh), 'img': vlib.fl(np.round(rng.uniform(-5, 500, sh) * 4).ravel() / 4),
-                        'electrons': float(rng.integers(0, 40)) / 2, 'seed': seed})
+                        'electrons': float(rng.integers(0, 40)) / 2, 'seed': seed,
+                        'frame_dtype': ['float64', 'float64', 'int64', 'int32', 'uint16', 'uint8', 'float32'][int(rng.integers(0, 7))]})
+        elif t == 4 and k % 20 == 4:
+            sh = _shape(rng, 1, 8)
+            out.append({'kind': 'rule07', 'shape': (list(sh) if rng.integers(0, 5) else 1), 'temperature': float(rng.uniform(60, 160)),
+                        'cutoff': float(rng.uniform(2.0, 12.0)) * 1e-6, 'pixelscale': float(rng.choice([10e-6, 18e-6, 25e-6])),
+                        'fpn': [0, 0.1, 0.25, 0.4][int(rng.integers(0, 4))], 'seed': seed})
         elif t == 4:
             sh = _shape(rng, 1, 8)
             out.append({'kind': 'dark', 'shape': (list(sh) if rng.integers(0, 5) else 1), 'rate': float(rng.uniform(0, 300)),
@@ -77,7 +81,8 @@ def generate(rng, tier):
         elif t in (5, 6, 7):
             sh = _shape(rng, 3, 16)
             out.append({'kind': 'power', 'shape': list(sh), 'hole': bool(rng.integers(0, 2)), 'rms': float(rng.uniform(1, 100)) * 1e-9,
-                        'hpf': float(rng.uniform(1, 8)), 'exp': float(rng.uniform(1.5, 4)), 'px': [1e-3, 5e-3][int(rng.integers(0, 2))], 'seed': seed})
+                        'hpf': float(rng.uniform(1, 8)), 'exp': float(rng.uniform(1.5, 4)), 'px': [1e-3, 5e-3][int(rng.integers(0, 2))], 'seed': seed,
+                        'mask_dtype': ['float64', 'int64', 'bool', 'uint8'][int(rng.integers(0, 4))]})
         elif t == 8:
             sh = (int(rng.integers(4, 40)), int(rng.integers(4, 40)))
             out.append({'kind': 'cosmic', 'shape': list(sh), 'ts': float(rng.choice([1.0, 200.0, 5000.0])), 'state': seed % 2**32})
@@ -90,12 +95,14 @@ def signature(c): return ' '.join(str(c.get(k)) for k in ('kind', 'method', 'whi
 def nontrivial(c):
     if c['kind'] in ('cosmic', 'moments', 'power'): return True
     if c['kind'] == 'shot': return c['flavor'] != 'ok' or c['shape'][0] != c['shape'][1]
-    if c['kind'] == 'dark': return c['fpn'] > 0 or c['shape'] != 1
+    if c['kind'] in ('dark', 'rule07'): return c['fpn'] > 0 or c['shape'] != 1
     return c['shape'][0] != c['shape'][1]
 def tags(c):
     t = [c['kind']]
     if c['kind'] == 'shot': t += ['shot:' + c['method'], 'shot:' + c['flavor']]
-    if c['kind'] == 'dark': t.append('dark:fpn' if c['fpn'] > 0 else 'dark:nofpn')
+    if c['kind'] in ('dark', 'rule07'): t.append(c['kind'] + (':fpn' if c['fpn'] > 0 else ':nofpn'))
+    if c['kind'] == 'read': t.append('read:' + c.get('frame_dtype', 'float64'))
+    if c['kind'] == 'power': t.append('mask:' + c.get('mask_dtype', 'float64'))
     if c['kind'] in ('shot', 'read', 'power') and c['shape'][0] != c['shape'][1]: t.append('non-square')
     if c['kind'] == 'moments': t.append('moments:' + c['which'])
     return t
@@ -107,6 +114,13 @@ def _mask(c):
     mk = (r <= 1).astype(float)
     if c['hole']: mk[r < 0.15] = 0
     return mk
+
+def _read_frame(c):
+    img = np.array(vlib.unfl(c['img'])).reshape(c['shape'])
+    dt = c.get('frame_dtype', 'float64')
+    if dt.startswith(('int', 'uint')): img = np.floor(np.abs(img) if dt.startswith('uint') else img)
+    if dt == 'uint8': img = np.minimum(img, 255)
+    return img.astype(dt)
 
 def _gstate():
     s = np.random.get_state(); return (s[1].tobytes(), s[2], s[3], s[4])
@@ -130,20 +144,28 @@ def impl(c):
                 res = {'out': vlib.fl(np.asarray(out, dtype=float).ravel()), 'shape': list(np.shape(out)), 'same': bool(np.array_equal(out, again)),
                        'differs': bool(not np.array_equal(out, other)), 'untouched': img.tobytes() == snap, 'dtype': str(np.asarray(out).dtype)}
             elif k == 'read':
-                img = np.array(vlib.unfl(c['img'])).reshape(c['shape']); img.flags.writeable = False
+                img = _read_frame(c); img.flags.writeable = False
                 out = D.read_noise(img, c['electrons'], seed=c['seed'])
                 again = D.read_noise(img, c['electrons'], seed=c['seed'])
                 other = D.read_noise(img, c['electrons'], seed=c['seed'] + 1)
                 out0 = D.read_noise(np.zeros(c['shape']), c['electrons'], seed=c['seed'])
-                res = {'out': vlib.fl(out.ravel()), 'shape': list(out.shape), 'same': bool(np.array_equal(out, again)),
-                       'differs': bool(not np.array_equal(out, other)), 'noise_only': vlib.fl(out0.ravel())}
+                res = {'out': vlib.fl(np.asarray(out, dtype=float).ravel()), 'shape': list(out.shape), 'same': bool(np.array_equal(out, again)),
+                       'differs': bool(not np.array_equal(out, other)), 'noise_only': vlib.fl(out0.ravel()), 'dtype': str(out.dtype)}
             elif k == 'dark':
                 sh = c['shape'] if c['shape'] == 1 else tuple(c['shape'])
                 out = D.dark_current(c['rate'], sh, fpn_factor=c['fpn'], seed=c['seed'])
                 again = D.dark_current(c['rate'], sh, fpn_factor=c['fpn'], seed=c['seed'])
                 res = {'out': vlib.fl(np.asarray(out, dtype=float).ravel()), 'shape': list(np.shape(out)), 'same': bool(np.array_equal(out, again))}
+            elif k == 'rule07':
+                sh = c['shape'] if c['shape'] == 1 else tuple(c['shape'])
+                args = (c['temperature'], c['cutoff'], c['pixelscale'])
+                out = D.rule07_dark_current(*args, shape=sh, fpn_factor=c['fpn'], seed=c['seed'])
+                again = D.rule07_dark_current(*args, shape=sh, fpn_factor=c['fpn'], seed=c['seed'])
+                other = D.rule07_dark_current(*args, shape=sh, fpn_factor=c['fpn'], seed=c['seed'] + 1)
+                res = {'out': vlib.fl(np.asarray(out, dtype=float).ravel()), 'shape': list(np.shape(out)), 'same': bool(np.array_equal(out, again)),
+                       'differs': bool(not np.array_equal(out, other))}
             elif k == 'power':
-                mk = _mask(c); snap = mk.tobytes(); mk.flags.writeable = False
+                mk = _mask(c).astype(c.get('mask_dtype', 'float64')); snap = mk.tobytes(); mk.flags.writeable = False
                 out = lentil.power_spectrum(mk, c['px'], c['rms'], c['hpf'], c['exp'], seed=c['seed'])
                 again = lentil.power_spectrum(mk, c['px'], c['rms'], c['hpf'], c['exp'], seed=c['seed'])
                 other = lentil.power_spectrum(mk, c['px'], c['rms'], c['hpf'], c['exp'], seed=c['seed'] + 1)
@@ -195,10 +217,16 @@ def requests(c, io):
             except ValueError: draws = np.zeros(img.size, dtype=np.int64)
             return [{'op': 'st.shot_poisson', 'img': vlib.fl(img), 'draws': [int(x) for x in draws], 'lam_max': vlib.fbits(LAM_MAX)}]
         z = np.random.default_rng(c['seed']).standard_normal(tuple(c['shape'])).ravel()
-        return [{'op': 'st.shot_gaussian', 'img': vlib.fl(img), 'z': vlib.fl(z)}]
+        return [{'op': 'st.shot_gaussian', 'img': vlib.fl(img), 'z': vlib.fl(z), 'lam_max': vlib.fbits(LAM_MAX)}]
     if k == 'read':
         z = np.random.default_rng(c['seed']).standard_normal(tuple(c['shape'])).ravel()
-        return [{'op': 'st.read_noise', 'img': c['img'], 'z': vlib.fl(z), 'electrons': vlib.fbits(c['electrons'])}]
+        return [{'op': 'st.read_noise', 'img': vlib.fl(np.asarray(_read_frame(c), dtype=float).ravel()), 'z': vlib.fl(z), 'electrons': vlib.fbits(c['electrons'])}]
+    if k == 'rule07':
+        sh = c['shape'] if c['shape'] == 1 else tuple(c['shape'])
+        n = int(np.prod(sh))
+        fpn = np.random.default_rng(c['seed']).lognormal(mean=1.0, sigma=c['fpn'], size=sh).ravel() if c['fpn'] > 0 else np.ones(n)
+        return [{'op': 'st.rule07', 'temperature': vlib.fbits(c['temperature']), 'cutoff': vlib.fbits(c['cutoff']), 'pixelscale': vlib.fbits(c['pixelscale']),
+                 'fpn_factor': vlib.fbits(c['fpn']), 'fpn': vlib.fl(np.atleast_1d(fpn)), 'n': n}]
     if k == 'dark':
         sh = c['shape'] if c['shape'] == 1 else tuple(c['shape'])
         n = int(np.prod(sh))
@@ -216,6 +244,15 @@ def compare(c, io, mo):
     if not m.get('ok'): return f"model answers {m.get('err')}, implementation returned a frame"
     got = np.array(vlib.unfl(io['out']))
     k = c['kind']
+    if k == 'rule07':
+        # exp/pow come from two libm front ends: the rate may differ in the last bits, so a pixel whose value rate*fpn lies within
+        # 1e-9 (relative) of an integer may floor to either side
+        want = np.array(m['out'], dtype=float); vals = np.array(vlib.unfl(m['vals']))
+        if got.shape != want.shape: return f'sizes differ {got.shape} {want.shape}'
+        for p in np.nonzero(got != want)[0]:
+            near = abs(vals[p] - np.round(vals[p])) <= 1e-9 * (1 + abs(vals[p]))
+            if not (near and abs(got[p] - want[p]) <= 1): return f'pixel {int(p)}: implementation {got[p]}, model {want[p]} (rate*fpn = {vals[p]!r})'
+        return None
     if k in ('shot', 'dark'):
         want = np.array(m['out'], dtype=float)
         if got.shape != want.shape: return f'sizes differ {got.shape} {want.shape}'
@@ -251,7 +288,8 @@ def oracle(c, io):
         if 'exc' in io: return f"read_noise raised {io['msg']}"
         if not io['same']: return 'same seed gave a different frame'
         if c['electrons'] > 0 and not io['differs'] : return 'different seeds gave identical noise'
-        out = np.array(vlib.unfl(io['out'])); img = np.array(vlib.unfl(c['img'])); n0 = np.array(vlib.unfl(io['noise_only']))
+        out = np.array(vlib.unfl(io['out'])); img = np.asarray(_read_frame(c), dtype=float).ravel(); n0 = np.array(vlib.unfl(io['noise_only']))
+        if not io['dtype'].startswith('float'): return f"read noise returned dtype {io['dtype']} (noise truncated to the frame's integer type)"
         if np.max(np.abs((out - img) - n0)) > 1e-9 * (1 + np.max(np.abs(img))): return 'read noise depends on the signal'
         if c['electrons'] == 0 and not np.array_equal(out, img): return 'zero read noise changed the frame'
         return None
@@ -264,6 +302,15 @@ def oracle(c, io):
         if c['fpn'] == 0 and np.any(out != np.floor(c['rate'])): return f"dark frame without pattern noise is not floor(rate) = {np.floor(c['rate'])}"
         if out.min() < 0 or np.any(out != np.floor(out)): return 'dark frame not a non-negative integer'
         if not io['same']: return 'same seed gave a different dark frame'
+        return None
+    if k == 'rule07':
+        if 'exc' in io: return f"rule07_dark_current raised {io['msg']}"
+        out = np.array(vlib.unfl(io['out']))
+        if c['shape'] != 1 and io['shape'] != c['shape']: return f"dark frame shape {io['shape']}"
+        if not io['same']: return 'rule07_dark_current: same arguments and seed gave a different frame (seed not honoured)'
+        if c['fpn'] > 0 and out.size >= 4 and out.max() > 50 and not io['differs']: return 'rule07_dark_current: different seeds gave identical pattern noise'
+        if c['fpn'] == 0 and np.any(out != out.flat[0]): return 'dark frame without pattern noise is not constant'
+        if out.min() < 0 or np.any(out != np.floor(out)): return 'dark frame not a non-negative integer'
         return None
     if k == 'power':
         if 'exc' in io: return f"power_spectrum raised {io['msg']} on a {c['shape']} mask"
